@@ -1,6 +1,7 @@
 (* Wavefront.insert(out, weight): the caller's array receives weight * |Wavefront.field|^2, for any
    array shape (the wavefront is laid centre on centre) and any weight (C02, deepen). *)
 From LV Require Import Model.Propagate Proofs.ArrP Proofs.ExtentP Proofs.FieldP Proofs.DftP Proofs.PropagateP.
+From Coq Require Import Permutation.
 
 Section InsertP.
 Variable S : Scalar.
@@ -95,6 +96,37 @@ Proof.
   destruct (accumulate_spec (wdata w') out weight Hn Hmm Hf) as (r & Hr & Nr & Mr & Gr).
   exists w', o, r. split; [exact Hw|]. split; [exact Ho|]. split; [exact Hr|]. split; [exact Nr|]. split; [exact Mr|].
   intros i j Hi Hj. rewrite Gr, G by assumption. reflexivity.
+Qed.
+
+(* the order of the fields in the wavefront (the order of the segments of a plane, the order of the loop)
+   does not matter for Wavefront.field of the result, whatever the shifts *)
+Theorem propagate_dft_field_order shift_of (w1 w2 : wavefront S) dur duc shape pshape os mask dxr dxc Sr Sc Pr Pc b :
+  Permutation (wdata w1) (wdata w2) ->
+  wwl w1 = wwl w2 -> wfocal w1 = wfocal w2 -> wshape w1 = wshape w2 ->
+  wptype w1 <> PtNone -> wptype w2 <> PtNone -> wps w1 = Some (dxr, dxc) -> wps w2 = Some (dxr, dxc) ->
+  (forall f, In f (wdata w1) -> exists a, fd f = D2 a) ->
+  match shape with None => wshape w1 | Some s => s end = (Sr, Sc) ->
+  match pshape with None => (Sr, Sc) | Some p => p end = (Pr, Pc) ->
+  0 < Sr -> 0 < Sc -> 0 < Pr -> 0 < Pc -> 1 <= os ->
+  (forall m, mask = Some m -> mnr m = Sr * os /\ mnc m = Sc * os) ->
+  mask_bbox mask (Sr * os) (Sc * os) = Ok b ->
+  exists w1' w2' o1 o2,
+    propagate_dft sq shift_of w1 dur duc shape pshape os mask = Ok w1' /\ wfield w1' = Ok o1 /\
+    propagate_dft sq shift_of w2 dur duc shape pshape os mask = Ok w2' /\ wfield w2' = Ok o2 /\
+    nr o1 = nr o2 /\ nc o1 = nc o2 /\
+    (forall i j, 0 <= i < Sr * os -> 0 <= j < Sc * os -> get o1 i j = get o2 i j).
+Proof.
+  intros Hperm Ewl Ez Esh Hp1 Hp2 Hs1 Hs2 Hd Hshape Hpshape HSr HSc HPr HPc Hos Hm Hb.
+  assert (Hd2 : forall f, In f (wdata w2) -> exists a, fd f = D2 a).
+  { intros f Hf. apply Hd. eapply Permutation_in; [apply Permutation_sym; exact Hperm|exact Hf]. }
+  assert (Hshape2 : match shape with None => wshape w2 | Some s => s end = (Sr, Sc)) by (rewrite <- Esh; exact Hshape).
+  destruct (propagate_dft_chips S Sring Skernel sq shift_of w1 dur duc shape pshape os mask dxr dxc Sr Sc Pr Pc b
+              Hp1 Hs1 Hd Hshape Hpshape HSr HSc HPr HPc Hos Hm Hb) as (w1' & o1 & A1 & _ & B1 & N1 & M1 & G1).
+  destruct (propagate_dft_chips S Sring Skernel sq shift_of w2 dur duc shape pshape os mask dxr dxc Sr Sc Pr Pc b
+              Hp2 Hs2 Hd2 Hshape2 Hpshape HSr HSc HPr HPc Hos Hm Hb) as (w2' & o2 & A2 & _ & B2 & N2 & M2 & G2).
+  exists w1', w2', o1, o2. repeat (split; [assumption|]). split; [congruence|]. split; [congruence|].
+  intros i j Hi Hj. rewrite (G1 i j Hi Hj), (G2 i j Hi Hj). cbv zeta. rewrite <- Ewl, <- Ez.
+  apply lsum_perm; [exact Sring|]. apply Permutation_map. exact Hperm.
 Qed.
 End InsertP.
 
